@@ -21,6 +21,41 @@ JAR = "/opt/veriftools/tla/tla2tools.jar:/opt/veriftools/tla/CommunityModules-de
 NCPU = os.cpu_count() or 4
 
 
+def apalache(ctx, key, files, module, runs, rewrite=None):
+    """Unbounded obligations discharged by Apalache (symbolic).  runs: (name, init, inv, length, want_ok).  The outcome of
+    every run goes into the evidence; an obligation that comes out the WRONG way is a machinery failure; a tool that is
+    missing or dies is recorded and does not decide anything (TLC remains the decision procedure)."""
+    import shutil
+    import subprocess
+    import time
+    res = {}
+    ctx.extra[key] = res
+    if shutil.which("apalache-mc") is None:
+        res["status"] = "apalache-mc not found: skipped"
+        return res
+    wd = os.path.join(ctx.work, "apalache-" + key)
+    os.makedirs(wd, exist_ok=True)
+    for f in files:
+        shutil.copy(os.path.join(VERIF, "spec", f), wd)
+    if rewrite:
+        rewrite(wd)
+    for name, mod, init, inv, length, want_ok in runs:
+        t0 = time.time()
+        try:
+            p = subprocess.run(["apalache-mc", "check", "--init=" + init, "--inv=" + inv, "--length=%d" % length,
+                                "--out-dir=" + os.path.join(wd, "out"), mod + ".tla"], cwd=wd, capture_output=True, text=True, timeout=1200)
+            out = p.stdout + p.stderr
+            outcome = "NoError" if "The outcome is: NoError" in out else "Error" if "The outcome is: Error" in out else "abnormal rc=%d" % p.returncode
+        except subprocess.TimeoutExpired:
+            outcome = "timeout"
+        res[name] = {"module": mod, "init": init, "inv": inv, "length": length, "expected": "NoError" if want_ok else "Error",
+                     "outcome": outcome, "wall_s": round(time.time() - t0, 1)}
+        if outcome in ("NoError", "Error") and (outcome == "NoError") != want_ok:
+            raise MachineryError("Apalache %s/%s: expected %s, got %s" % (key, name, "NoError" if want_ok else "Error", outcome))
+    res["status"] = "proved" if all(v["outcome"] in ("NoError", "Error") for k, v in res.items() if isinstance(v, dict)) else "incomplete (see outcomes)"
+    return res
+
+
 class MachineryError(Exception):
     """TLC/SANY error, harness exception, unmodelled shape: exit code 2."""
 
